@@ -98,6 +98,12 @@ Section Fetch.
     | _ => match e with URLFetchingError _ => true | _ => false end
     end.
 
+  Definition attachment_swallows (c : consumer) (e : pyerr) : bool :=
+    match c, e with
+    | CAttachment, Raised x => e_name x =? "StopIteration"
+    | _, _ => false
+    end.
+
   Definition is_css (m : option string) : bool :=
     match m with Some s => s =? "text/css" | None => false end.
 
@@ -118,7 +124,10 @@ Section Fetch.
         then (Val (None : option (string * option string)), [])       (* 'Unsupported stylesheet type' *)
         else match read_payload d with
              | (Val s, ev) => (Val (Some (s, mime_value d)), ev)
-             | (Exc e, ev) => (Exc e, ev)
+             | (Exc e, ev) =>
+                 (* write_pdf_attachment reads with iter(lambda: source.read(4096), b''): a StopIteration
+                    raised by read() ends that loop like the sentinel does - an empty payload *)
+                 if attachment_swallows c e then (Val (Some ("", mime_value d)), ev) else (Exc e, ev)
              end) in
     match r with
     | Val (Some p) => (Val (Some p), ev, [])
